@@ -1,9 +1,13 @@
 #!/bin/bash
-# usage: mk.sh <name> <file-under-/repo> <python-regex> <replacement> [count]  -> writes selftest/mutants/<name>.patch
+# usage: mk.sh <name> <file-under-repo> <python-regex> <replacement> [count] [dir]  -> writes selftest/<dir>/<name>.patch
+# Works on a scratch copy of /repo (never edits /repo). <dir> defaults to mutants.
 set -e
-NAME="$1"; FILE="$2"; PAT="$3"; REP="$4"; CNT="${5:-1}"
-cd /repo
-git diff --quiet || { echo "/repo dirty"; exit 2; }
+NAME="$1"; FILE="$2"; PAT="$3"; REP="$4"; CNT="${5:-1}"; DIR="${6:-mutants}"
+HERE="$(cd "$(dirname "$0")/.." && pwd)"
+SCR=/tmp/mk_repo_$$
+rm -rf "$SCR"; cp -r /repo "$SCR"; rm -rf "$SCR/target" "$SCR/.git"
+cd "$SCR"
+git init -q . && git add -A >/dev/null && git -c user.email=a@b -c user.name=x commit -qm b >/dev/null
 python3 - "$FILE" "$PAT" "$REP" "$CNT" <<'PY'
 import sys,re
 f,pat,rep,cnt=sys.argv[1:5]
@@ -14,6 +18,6 @@ s2=re.sub(pat,rep,s,count=int(cnt))
 assert s2!=s
 open(f,'w').write(s2)
 PY
-git diff > /verif/selftest/mutants/$NAME.patch
-git checkout -- .
-echo "wrote $NAME.patch"
+git diff > "$HERE/selftest/$DIR/$NAME.patch"
+cd /; rm -rf "$SCR"
+echo "wrote $DIR/$NAME.patch"
